@@ -197,12 +197,16 @@ func c15Batch(w *Worker, cases []*genCase, name string) {
 		both = append(both, c)
 		if c.Shape == gen.UseAll && c.Tags == nil {
 			both = append(both, &genCase{Origin: c.Origin, Spec: c.Spec, Shape: gen.Mixed})
+			if strings.HasPrefix(c.Origin, "family:") {
+				both = append(both, &genCase{Origin: c.Origin + " [nested parses]", Spec: c.Spec, Shape: gen.UseAll, Nested: true})
+			}
 		}
 	}
 	cases = both
 	for i, c := range cases {
 		g := ref.FromSpec(c.Spec)
 		d := gen.Decorate(c.Spec, c.Tags, c.Shape)
+		d.Nested = c.Nested
 		o := &obs{c: c, g: g, d: d, items: map[string]*gen.Item{}}
 		res := ygo.Build(d.Source(gen.Go, "model"), ygo.Options{Fuel: buildFuel})
 		if !res.OK() {
